@@ -588,6 +588,11 @@ impl Task {
                 }
                 task.set_err(&err);
                 task.set_data(&ctx.vars());
+                // an act that waited to be completed from outside (a subflow act) has now been answered: if a catch
+                // keeps it alive it completes like any other act
+                if !task.is_auto_complete() {
+                    task.set_auto_complete(true);
+                }
                 task.error(ctx)?;
             }
             EventAction::SetProcessVars => {
